@@ -57,11 +57,12 @@ func vfhC15BoundaryTypes() {
 	vfAssert(pt.Boundary().IsEmpty() && pt.AsGeometry().Boundary().IsEmpty(), "points have no boundary")
 	vfAssert(vfMultiPointXY(a, b).Boundary().IsEmpty(), "multipoints have no boundary")
 
+	vfAssert(vfLineXY(a, b, c, a).Boundary().IsEmpty(), "closed lines have no boundary")
 	open := vfLineXY(a, b, c)
 	bd := open.Boundary()
 	if vfEqXY(a, c) {
 		vfAssert(bd.IsEmpty(), "closed lines have no boundary")
-		vfReach("closed")
+		return
 	} else {
 		vfAssert(bd.NumPoints() == 2, "open line: two end points")
 		p0, _ := bd.PointN(0).XY()
